@@ -29,7 +29,7 @@ sets `norminator` only for a real scalar; and the regenerated loop chain reaches
 product / dot product / trace.  Any other `conditiontype` is rejected (the `else: raise ValueError`). -/
 theorem C13_dispatch :
     (∀ kind ∈ Spec.Kind.all, ∀ dt ∈ kind.dtypes, ∀ ct ∈ kind.ctypes,
-      grSrc.prep.eval dt kind.rank ct = expectedPrep kind ∧ selectLoop grSrc.loops ct = some (expectedWeight kind)) ∧
+      prepOK kind dt (grSrc.prep.eval dt kind.rank ct) = true ∧ selectLoop grSrc.loops ct = some (expectedWeight kind)) ∧
     (∀ ct ∈ [some "matrix", some "Vector", some "scalar", some "None"], selectLoop grSrc.loops ct = none) ∧
     grSrc.columns = ["r", "gr", "gA"] :=
   ⟨dispatch_table, by decide +kernel, by decide +kernel⟩
@@ -48,36 +48,37 @@ theorem C13_gr_def (rint : K → ℤ) (tr : Gr.Traj K) (hwf : WFc rint tr) (kind
       = some (Gr.Spec.r tr k, Gr.Spec.gTotal rint tr k,
               Spec.gA tr (Gr.binOf tr (Gr.dist2 rint tr)) kind (Spec.nOf kind tr.N x) x.m x.A k,
               if kind = .real then some (Spec.gAnorm tr (Gr.binOf tr (Gr.dist2 rint tr)) x.A k) else none) := by
-  obtain ⟨hprep, hloop⟩ := dispatch_table kind (mem_all kind) x.dtype hx.dtype ct hct
+  obtain ⟨hp, hloop⟩ := dispatch_table kind (mem_all kind) x.dtype hx.dtype ct hct
+  unfold Impl.condGr
+  simp only [hx.rank, hloop]
+  generalize grSrc.prep.eval x.dtype kind.rank ct = p at hp ⊢
   have hB : ∀ f i j, Gr.binOf tr (Gr.dist2 rint tr) f i j k = Gr.binOf tr (Gr.dist2 rint tr) f j i k :=
     fun f i j => Gr.binOf_symm rint hwf.rint_he tr f i j k
   have hN : (tr.N : K) ≠ 0 := Nat.cast_ne_zero.mpr (by have := hwf.N_pos; omega)
-  have hnat := natom_eq kind tr.N x hx
-  have hn : Impl.natom (expectedPrep kind) tr.N x.A ≠ 0 := by
+  have hnat := natom_eq kind tr.N x hx p hp
+  have hn : Impl.natom p tr.N x.A ≠ 0 := by
     rw [hnat]; exact Nat.cast_ne_zero.mpr (by have := nOf_pos kind tr.N hwf.N_pos x hx; omega)
-  obtain ⟨hR, hGr, hGA, hNorm⟩ := final_cols tr hwf.dim hwf.V_ne hN hwf.pi_ne hwf.delta_ne (expectedPrep kind) x.A hn
+  obtain ⟨hR, hGr, hGA, hNorm⟩ := final_cols tr hwf.dim hwf.V_ne hN hwf.pi_ne hwf.delta_ne p x.A hn
     (Impl.rawGr tr (Gr.binOf tr (Gr.dist2 rint tr)) k)
-    (Impl.rawGA tr (Gr.binOf tr (Gr.dist2 rint tr)) (expectedWeight kind) (expectedPrep kind) x.m x.A k) k
-  have hGA' : Impl.final grSrc tr (expectedPrep kind) x.A (Impl.rawGr tr (Gr.binOf tr (Gr.dist2 rint tr)) k)
-      (Impl.rawGA tr (Gr.binOf tr (Gr.dist2 rint tr)) (expectedWeight kind) (expectedPrep kind) x.m x.A k) k .colGA
+    (Impl.rawGA tr (Gr.binOf tr (Gr.dist2 rint tr)) (expectedWeight kind) p x.m x.A k) k
+  have hGA' : Impl.final grSrc tr p x.A (Impl.rawGr tr (Gr.binOf tr (Gr.dist2 rint tr)) k)
+      (Impl.rawGA tr (Gr.binOf tr (Gr.dist2 rint tr)) (expectedWeight kind) p x.m x.A k) k .colGA
         = Spec.gA tr (Gr.binOf tr (Gr.dist2 rint tr)) kind (Spec.nOf kind tr.N x) x.m x.A k := by
-    rw [hGA, hnat, rawGA_eq tr _ kind x hx k, gA_loop tr hwf.T_one _ kind _ x.m x.A k hB]
-  unfold Impl.condGr
-  simp only [hx.rank, hprep, hloop]
-  rw [hR, hGr, hGA']
+    rw [hGA, hnat, rawGA_eq tr _ kind x hx p hp k, gA_loop tr hwf.T_one _ kind _ x.m x.A k hB]
   have hT : Gr.Spec.gTotal rint tr k
       = Gr.Spec.V tr / ((tr.N : K) * (tr.N : K)) * (2 * Impl.rawGr tr (Gr.binOf tr (Gr.dist2 rint tr)) k) / Gr.Spec.shell tr k :=
     gTotal_loop tr hwf.T_one _ k hB
-  rw [← hT]
+  have hnorm := prepOK_norm hp
+  rw [hR, hGr, hGA', ← hT]
   cases kind
   case real =>
-    have h := hNorm rfl
+    have h := hNorm (by rw [hnorm]; rfl)
     rw [hGA'] at h
-    rw [h]
+    rw [h, hnorm]
     have hn : Spec.nOf .real tr.N x = tr.N := by simp [Spec.nOf]
     simp only [hn, expectedPrep, if_true]
     rfl
-  all_goals simp [expectedPrep]
+  all_goals simp [hnorm, expectedPrep]
 
 /-- **A boolean selection of one species reproduces that species' partial g_aa** — the `Spec.g a a` of C03, stated
 against C03's definition itself: if the mask selects exactly the particles of type a, the `gA` column is g_aa. -/
@@ -135,6 +136,15 @@ theorem C13_norm_variant (rint : K → ℤ) (tr : Gr.Traj K) (hwf : WFc rint tr)
         else none) := by
   rw [C13_gr_def rint tr hwf kind x hx ct hct k]
   rfl
+
+/-- for SYMMETRIC tensors (the property's case) the trace of the product is the full contraction Σ_ab A_i[ab]·A_j[ab] -/
+theorem C13_tensor_symmetric (d m : ℕ) (A : ℕ → ℕ → Cx K) (i j : ℕ)
+    (hsym : ∀ a < d, ∀ b < d, A j (b * d + a) = A j (a * d + b)) :
+    Spec.weight .tensor d m A i j
+      = ∑ a ∈ range d, ∑ b ∈ range d, (Cx.mul (A i (a * d + b)) (A j (a * d + b))).re := by
+  simp only [Spec.weight, sumRange_eq]
+  refine Finset.sum_congr rfl fun a ha => Finset.sum_congr rfl fun b hb => ?_
+  rw [hsym a (mem_range.mp ha) b (mem_range.mp hb)]
 
 /-- the bins are those of C03: the regenerated argument of `int(…)` is L_min/(2·width) -/
 theorem C13_gr_bins (tr : Gr.Traj K) (hδ : tr.rdelta ≠ 0) : Impl.maxbinArg grSrc tr = Gr.Spec.maxbinArg tr := by
